@@ -8,7 +8,7 @@ from .. import canon, gen
 from ..core import call_real
 
 ID = "C10"
-LEAN_MODULE = "CKT.Props.C10Sem"
+LEAN_MODULE = "CKT.Props.C10PTM"
 THEOREMS = [
     "CKT.C10.qubitMap_spec", "CKT.C10.qubitsOf_sorted_nodup", "CKT.C10.mem_qubitsOf",
     "CKT.C10.splitBarriers_non_barrier", "CKT.C10.splitBarriers_qubits",
@@ -18,6 +18,8 @@ THEOREMS = [
     "CKT.C10.numberCuts_labels", "CKT.C10.splitHalves_pairs",
     # semantic half: recomposition through the qubit map, for every semantics with commuting disjoint instructions (C10Sem)
     "CKT.C10Sem.run_flatMap_grp", "CKT.C10Sem.lifted_sub", "CKT.C10Sem.separate_recompose",
+    # the two laws proved for the Pauli-expectation semantics of dynamic circuits (any gate matrices): T10.4 without assumed laws
+    "CKT.Sem.applyL_comm", "CKT.Sem.prim_comm", "CKT.Sem.ap_comm", "CKT.Sem.ap_barrier", "CKT.C10PTM.ptm", "CKT.C10PTM.separate_recompose_ptm",
     # T10.3: automatic labelling gives None to exactly the idle qubits (C10Auto)
     "CKT.C10.good_step", "CKT.C10.good_components", "CKT.C10.autoLabels_none_iff", "CKT.C10.conn_components", "CKT.C10.autoLabels_same_connected",
     "CKT.C10.step_count", "CKT.C10.sweep_count", "CKT.C10.components_stable", "CKT.C10.autoLabels_connected_same", "CKT.C10.separate_auto_ok",
